@@ -49,6 +49,7 @@ import DDProps.C16
 import DDProps.C16Chain
 import DDProps.C17
 import DDProps.C17Load
+import DDProps.C17Load2
 import DDProps.C17Reorder
 import DDProps.C18
 import DDProps.C19
